@@ -100,6 +100,16 @@ CLAIMS = {
              "body, the cuckoo empty-slot marker is outside the fingerprint interval, inherited alternate constructors build cls. "
              "Query-by-query equality and byte-exact re-export are consequences, not checked facts.",
         design_ref="DESIGN.md section 4 C05, E6"),
+    "C07": dict(
+        technique="tolerant normal-form comparison of sizing formulas; provenance of geometry arguments; effect analysis",
+        text="Formula/determinism part only: the three sizing computations are compared in normal form (floats to 1e-12 relative) "
+             "with the formulas quoted in the property (Bloom bits/hashes incl. float32 narrowing and the zero-hash rejection; "
+             "count-min width/depth; cuckoo fingerprint bits and its inverse); they have no write effect and call only pure "
+             "functions; every write of the Bloom geometry goes through _set_values with arguments originating from "
+             "_get_optimized_params applied to the stored (est_elements, rate), in constructors and all loaders, which is what makes a "
+             "reload reproduce the geometry. NOT decided: the numeric inequalities (7% allowance, 2/width <= eps, ...) under "
+             "floating point at specific parameter pairs.",
+        design_ref="DESIGN.md section 4 C07"),
 }
 
 NA_DEFAULT = "check not built yet (build phase in progress; DESIGN.md section 4 gives the planned rule)"
